@@ -184,6 +184,16 @@ def run_property(pid, build, tier="quick", seed=0, budget_ms=None, thorough_extr
     if res.bounded:
         cov["evaluations"] = sum(int(b.get("evaluations", 0)) for b in res.bounded)
         cov["distinct_nontrivial"] = sum(int(b.get("distinct_nontrivial", 0)) for b in res.bounded)
+    if tier == "thorough":
+        try:
+            from pyvc import differential as _D
+            dres = _D.differential(REPO, n=150, seed=seed)
+        except Exception as ex:
+            dres = {"error": repr(ex)}
+        cov["executor_differential"] = dres
+        if dres.get("disagreements"):
+            lines.append(f"EXECUTOR-DISAGREEMENT: the symbolic executor and CPython disagree on concrete inputs: {json.dumps(dres['disagreements'][0])[:300]}")
+            exit_code = 3
     if tier == "thorough" and os.path.realpath(REPO) == "/repo" and not os.environ.get("VERIF_NO_SELFTEST"):
         st_res = mutation_self_test(pid)
         cov["mutation_self_test"] = st_res
